@@ -79,6 +79,12 @@ def classify_reoptimization(again, recs2):
         return "not_idempotent:no_rewrite_fired(fusion_differs)"
     if "simplify" not in {r.phase for r in recs2}:
         return "not_idempotent:second_pass_lowers_only"
+    # the recorded finding is about nodes lowering introduced or un-shared being simplified late; an already lowered
+    # rechunk plan is different: the repository's rule (dask_array/_rechunk.py: "dispatch sites match type(parent) is
+    # Rechunk so the already-lowered TasksRechunk never pushes") is that it takes no part in simplify rewrites at all
+    plan = [r for r in recs2 if r.phase == "simplify" and type(r.before).__name__ == "TasksRechunk"]
+    if plan:
+        return f"not_idempotent:lowered_rechunk_plan_rewritten_by_simplify:{plan[0].rule}"
     return "not_idempotent:simplify_after_lower"
 
 
